@@ -271,6 +271,9 @@ impl Property for C13 {
             Tier::Thorough => Budget { cases: 400_000, shards: 16, min_len: 8, max_len: 64 },
         }
     }
+    fn fuzz_targets(&self) -> Vec<(&'static str, u64, usize)> {
+        vec![("prop", 500_000, 64)]
+    }
     fn rule(&self) -> String {
         "bytes -> custom SlotChain with 0..4 prepare, check and stat slots, order values from {0,1,1,2,7} (ties), a generated insertion interleaving, each check slot returning Pass / Blocked(Other(100+i), \"msg i\") / Wait(0); build() then exit() once if passed; the call log of the recording slots is judged against the contract; plus an exhaustive enumeration of all chains with <= 2 slots per kind over orders {0,1,7} (reported under coverage.extra); non-trivial = >= 2 check slots with the blocker not last, or several blockers, or equal order values; distinct = distinct decoded cases".into()
     }
